@@ -1,5 +1,7 @@
 import FpgoVerif.Proofs.C02Int
+import FpgoVerif.Model.C02
 import FpgoVerif.Proofs.C02Float
+import FpgoVerif.Proofs.C02Misc
 /-! Property theorems for C02 — "Maybe numeric conversions are value-preserving or fail; never silently wrap".
 
     All theorems are about `convGo` = the evaluator `conv` applied to `Gen.convTable`, the table the
@@ -80,6 +82,78 @@ theorem C02_float32_bits_to_int (tgt : Ty) (ht : tgt ∈ fltDirectTgts) (bits : 
 example : convGo .int64 (.ty .float64) (.f64 (.fin false 9223372036854775808 0)) = ⟨.i 0, .overflow⟩ := by decide +kernel
 example : convGo .int32 (.ty .float64) (.f64 (.fin false 5 1)) = ⟨.i 3, .ok⟩ := by decide +kernel
 example : (FVal.fin false 5 1).wf 53 := by simp [FVal.wf]
+
+/-! ### absent values, unsupported kinds, bool sources, ToBool -/
+
+/-- Closing theorem: every method starts with the `IsNil` prelude returning `ErrConversionNil`, its `default`
+    clause returns `ErrConversionUnsupported`, and every `ToBool` clause of a numeric type is `val != 0`. -/
+theorem C02_table_misc :
+    allTgts.all (fun tgt => errRowOK Gen.convTable tgt .nil .nilErr && errRowOK Gen.convTable tgt .dflt .unsupported) = true
+    ∧ numTys.all (fun src => toBoolBodyOK Gen.convTable src (lookup Gen.convTable .bool (.ty src))) = true := by
+  decide +kernel
+
+/-- Unsupported kinds (whatever reaches the `default` clause) fail with `ErrConversionUnsupported`. -/
+theorem C02_unsupported (tgt : Ty) (ht : tgt ∈ allTgts) (x : Val) :
+    (convGo tgt .dflt x).err = .unsupported ∧ specOK tgt .dflt x (convGo tgt .dflt x) = true := by
+  have hall := C02_table_misc.1
+  rw [List.all_eq_true] at hall
+  have h := hall tgt ht
+  simp only [Bool.and_eq_true] at h
+  have this : (convGo tgt .dflt x).err = .unsupported :=
+    errRow_sound goStrconv Gen.convTable 5 tgt .dflt .unsupported x h.2
+  exact ⟨this, by simp [specOK, this]⟩
+
+/-- An absent value fails with `ErrConversionNil`. -/
+theorem C02_nil (tgt : Ty) (ht : tgt ∈ allTgts) (x : Val) :
+    (convGo tgt .nil x).err = .nilE ∧ specOK tgt .nil x (convGo tgt .nil x) = true := by
+  have hall := C02_table_misc.1
+  rw [List.all_eq_true] at hall
+  have h := hall tgt ht
+  simp only [Bool.and_eq_true] at h
+  have this : (convGo tgt .nil x).err = .nilE :=
+    errRow_sound goStrconv Gen.convTable 5 tgt .nil .nilErr x h.1
+  exact ⟨this, by simp [specOK, this]⟩
+
+/-- `ToBool` of an integer is exactly `z != 0` (never an error). -/
+theorem C02_toBool_int (src : Ty) (hs : src ∈ intTys) (z : Int) :
+    convGo .bool (.ty src) (.i z) = ⟨.b (decide (z ≠ 0)), .ok⟩ ∧
+    specOK .bool (.ty src) (.i z) (convGo .bool (.ty src) (.i z)) = true := by
+  have hall := C02_table_misc.2
+  rw [List.all_eq_true] at hall
+  have h := hall src (by simp [numTys]; exact Or.inl hs)
+  have e := toBoolBodyOK_sound goStrconv Gen.convTable 4 src (.i z) h
+  have e' : convGo .bool (.ty src) (.i z) = ⟨.b (decide (z ≠ 0)), .ok⟩ := by
+    simpa [convGo, convFuel, evalE] using e
+  refine ⟨e', ?_⟩
+  rw [e']
+  cases src <;> simp [specOK, specNum, Ty.range, Ty.must, Ty.fmt]
+
+/-- `ToBool` of a float is exactly `x != 0`: true for NaN and ±Inf, false for ±0. -/
+theorem C02_toBool_float (is32 : Bool) (x : FVal) :
+    convGo .bool (.ty (fltSrc is32)) (mkF is32 x) = ⟨.b x.ne0, .ok⟩ ∧
+    specOK .bool (.ty (fltSrc is32)) (mkF is32 x) (convGo .bool (.ty (fltSrc is32)) (mkF is32 x)) = true := by
+  have hall := C02_table_misc.2
+  rw [List.all_eq_true] at hall
+  have h := hall (fltSrc is32) (by cases is32 <;> simp [numTys, fltSrc])
+  have e := toBoolBodyOK_sound goStrconv Gen.convTable 4 (fltSrc is32) (mkF is32 x) h
+  have e' : convGo .bool (.ty (fltSrc is32)) (mkF is32 x) = ⟨.b x.ne0, .ok⟩ := by
+    cases is32 <;> simpa [convGo, convFuel, evalE, mkF] using e
+  refine ⟨e', ?_⟩
+  rw [e']
+  cases is32 <;> simp [specOK, specNum, Ty.range, Ty.must, Ty.fmt, fltSrc, mkF]
+
+/-- A wrapped bool converts to 1 / 0 (1.0 / 0.0, itself) with every method: both values × all 14 methods,
+    by complete enumeration. -/
+theorem C02_bool_source (tgt : Ty) (ht : tgt ∈ allTgts) (b : Bool) :
+    specOK tgt (.ty .bool) (.b b) (convGo tgt (.ty .bool) (.b b)) = true := by
+  have h : allTgts.all (fun tgt => [true, false].all (fun b =>
+      specOK tgt (.ty .bool) (.b b) (convGo tgt (.ty .bool) (.b b)))) = true := by decide +kernel
+  rw [List.all_eq_true] at h
+  have h' := h tgt ht
+  rw [List.all_eq_true] at h'
+  exact h' b (by cases b <;> simp)
+
+example : convGo .float32 (.ty .bool) (.b true) = ⟨.f32 (.fin false 1 0), .ok⟩ := by decide +kernel
 
 example : specOK .uint8 (.ty .int8) (.i (-1)) (convGo .uint8 (.ty .int8) (.i (-1))) = true := by decide +kernel
 example : convGo .uint8 (.ty .int8) (.i (-1)) = ⟨.i 0, .overflow⟩ := by decide +kernel
